@@ -24,12 +24,42 @@ PatchT = U.opaque("PatchT")
 Ref = U.opaque("Ref")
 OptRef = U.union("OptRef", dict(none=None, some=Ref))
 
-grb = M.opaque("grb", [HW], Rb, impl=None, note="rulebook.get_rulebook(hw) (deterministic per hw: C18)")
-aacl = M.opaque("aacl", [Tree, Acl, BOOL], Tree, impl=None, note="patching.apply_acl(config, rules, with_annotations=..) (specs.patching)")
-mdiff = M.opaque("mdiff", [Tree, Tree, Rb, AclList], DiffO, impl=None, note="patching.make_diff (specs.diffrb)")
-mpre = M.opaque("mpre", [DiffO], Pre, impl=None, note="patching.make_pre (specs.makepre)")
-pfp = M.opaque("pfp", [Pre, HW, Rb, BOOL, OptRef, BOOL], PatchT, impl=None, note="patch_from_pre -> make_patch (not under contract)")
-su = M.opaque("su", [DiffO], DiffO, impl=None, note="patching.strip_unchanged (specs.patching)")
+def _grb(hw):
+    from annet import rulebook
+    return rulebook.get_rulebook(hw)
+
+
+def _aacl(tree, acl, ann):
+    from annet.annlib import patching
+    return patching.apply_acl(tree, acl, with_annotations=ann)
+
+
+def _mdiff(old, new, rb, acls):
+    from annet.annlib import patching
+    return patching.make_diff(old, new, rb, acls)
+
+
+def _mpre(diff):
+    from annet.annlib import patching
+    return patching.make_pre(diff)
+
+
+def _pfp(pre, hw, rb, ac, ref, dc):
+    from annet import api
+    return api.patch_from_pre(pre, hw, rb, ac, ref, dc).to_json()
+
+
+def _su(diff):
+    from annet.annlib import patching
+    return patching.strip_unchanged(diff)
+
+
+grb = M.opaque("grb", [HW], Rb, impl=_grb, note="rulebook.get_rulebook(hw) (deterministic per hw: C18)")
+aacl = M.opaque("aacl", [Tree, Acl, BOOL], Tree, impl=_aacl, note="patching.apply_acl(config, rules, with_annotations=..) (specs.patching)")
+mdiff = M.opaque("mdiff", [Tree, Tree, Rb, AclList], DiffO, impl=_mdiff, note="patching.make_diff (specs.diffrb)")
+mpre = M.opaque("mpre", [DiffO], Pre, impl=_mpre, note="patching.make_pre (specs.makepre)")
+pfp = M.opaque("pfp", [Pre, HW, Rb, BOOL, OptRef, BOOL], PatchT, impl=_pfp, note="patch_from_pre -> make_patch (not under contract)")
+su = M.opaque("su", [DiffO], DiffO, impl=_su, note="patching.strip_unchanged (specs.patching)")
 
 M.contract(F, "<get_rulebook>", params=dict(hw=HW), ret=Rb, trusted=True, ensures=["result == grb(hw)"], properties=["C16", "C02"],
            note="assumed: the provider returns an equal rulebook for the same hw (C18) and callers do not modify it (C20)")
@@ -47,7 +77,53 @@ M.contract(F, "<patch_from_pre>", params=dict(pre=Pre, hw=HW, rb=Rb, add_comment
 M.contract(F, "<strip_unchanged>", params=dict(diff=DiffO), ret=DiffO, trusted=True, ensures=["result == su(diff)"], properties=["C16", "C02"],
            note="proved in specs.patching; pure")
 
-M.contract(F, "_diff_and_patch",
+def _fe_cases():
+    import types
+    from bounded.common import setup_annet
+    setup_annet()        # connectors (rulebook provider, vendor registry) as the bounded layer sets them up; idempotent
+    from collections import OrderedDict as odict
+    from annet.annlib.netdev.views.hardware import HardwareView
+    from annet.annlib import tabparser
+    from annet.annlib.rbparser import acl as _acl
+    from annet.vendors import registry_connector
+    texts = ["", "sysname a\ninterface 100GE1/0/1\n  mtu 9000\n  description x\n",
+             "sysname b\ninterface 100GE1/0/1\n  mtu 1500\ninterface 100GE1/0/2\n  description y\nntp server 1.1.1.1\n"]
+    for model, vendor in (("Huawei CE6870", "huawei"), ("Cisco Catalyst 2960", "cisco")):
+        hw = HardwareView(model, "")
+        split = registry_connector.get().match(hw).make_formatter().split
+        trees = [tabparser.parse_to_tree(t, split) for t in texts]
+        acls = [None, _acl.compile_acl_text("interface *\n    ~\nsysname *\n", vendor)]
+        for old in trees:
+            for new in trees:
+                yield hw, old, new, acls
+
+
+def _dap_inputs():
+    import types
+    for hw, old, new, acls in _fe_cases():
+        for acl in acls:
+            yield dict(device=types.SimpleNamespace(hw=hw), old=old, new=new, acl_rules=acl, filter_acl_rules=None, add_comments=False,
+                       ref_track=None, do_commit=True, rb=None)
+
+
+def _rd_inputs():
+    for hw, old, new, _acls in _fe_cases():
+        yield dict(old=old, new=new, hw=hw, add_comments=False)
+
+
+def _dap_native(**kw):
+    from annet import api
+    d, p = api._diff_and_patch(**kw)
+    return (d, p.to_json())
+
+
+def _rd_native(**kw):
+    from annet import api
+    rb, d, pre, p = api._read_old_new_diff_patch(**kw)
+    return (rb, d, pre, p.to_json())
+
+
+M.contract(F, "_diff_and_patch", inputs=_dap_inputs, native_fn=_dap_native, native_frame_skip=["acl_rules", "filter_acl_rules", "device"],
            params=dict(device=Device, old=Tree, new=Tree, acl_rules=OptAcl, filter_acl_rules=OptAcl, add_comments=BOOL, ref_track=OptRef,
                        do_commit=BOOL, rb=OptRb),
            defaults=dict(ref_track=None, do_commit=True, rb=None), ret=U.tuple("DP2", [DiffO, PatchT]), locals=dict(),
@@ -60,7 +136,7 @@ M.contract(F, "_diff_and_patch",
                     "rb if rb is not None else grb(device.hw), add_comments, ref_track, do_commit)"],
            canaries=["result[0] == mdiff(old, new, grb(device.hw), [acl_rules, filter_acl_rules])"], properties=["C16", "C02"],
            note="device mode: the patch is built from the FULL diff; unchanged rows are stripped for display afterwards")
-M.contract(F, "_read_old_new_diff_patch", params=dict(old=Tree, new=Tree, hw=HW, add_comments=BOOL),
+M.contract(F, "_read_old_new_diff_patch", params=dict(old=Tree, new=Tree, hw=HW, add_comments=BOOL), inputs=_rd_inputs, native_fn=_rd_native,
            ret=U.tuple("RD4", [Rb, DiffO, Pre, PatchT]),
            ensures=["result[0] == grb(hw)",
                     "result[1] == su(mdiff(old, new, grb(hw), []))",
